@@ -19,7 +19,8 @@ CONSTANTS N, StakeVec, Own, W, FarFuture, MaxSlot,
           CertU,      \* certificates that may be received
           BlockU,     \* set of [s, h, par] with par = <<ps, ph>>
           EvSlots,    \* slots for timeouts / first-shred notices
-          MaxSteps
+          MaxSteps,
+          Urgent      \* TRUE: Votor drains its channels before the environment acts again (reduction)
 
 P == INSTANCE Pool
 V == INSTANCE Votor WITH VMaxSlot <- MaxSlot
@@ -70,23 +71,30 @@ VotorStep(a, o, c2, b2) ==
   LET mine == OwnVotesOf(o) IN
   Commit(a, pool, o.v, c2, b2, loop \cup mine, my \cup mine, NoPoolOut, [msgs |-> o.out])
 
+Quiet == ~Urgent \/ (chan = <<>> /\ bchan = <<>>)
+
 Next ==
   /\ pool.panic = ""
   /\ (MaxSteps = 0 \/ steps < MaxSteps)
-  /\ \/ \E vt \in VoteU : PoolStep([op |-> "pvote", vt |-> vt], P!AddVote(pool, vt))
-     \/ \E c \in CertU : PoolStep([op |-> "pcert", c |-> c], P!AddCert(pool, c))
+  /\ \/ /\ Quiet
+        /\ \E vt \in VoteU : vt \notin pool.votes /\ PoolStep([op |-> "pvote", vt |-> vt], P!AddVote(pool, vt))
+     \/ /\ Quiet
+        /\ \E c \in CertU : PoolStep([op |-> "pcert", c |-> c], P!AddCert(pool, c))
      \* a block completes: the blockstore notifies Votor and the block is registered in the pool
-     \/ \E b \in BlockU :
+     \/ /\ Quiet
+        /\ \E b \in BlockU :
           LET r == P!AddBlock(pool, <<b.s, b.h>>, b.par)
               ev == [t |-> "Block", s |-> b.s, h |-> b.h, par |-> b.par]
           IN \E tr \in ToVotorSeqs(r.ev) :
                Commit([op |-> "block", b |-> <<b.s, b.h>>, par |-> b.par], r.p, votor, chan \o tr,
                       Append(bchan, ev), loop, my, PoolOut(r), NoVotorOut)
-     \/ \E s \in EvSlots :
+     \/ /\ Quiet
+        /\ \E s \in EvSlots :
           Commit([op |-> "shred", s |-> s], pool, votor, chan, Append(bchan, [t |-> "FirstShred", s |-> s]),
                  loop, my, NoPoolOut, NoVotorOut)
      \* the node's own vote comes back from the network
-     \/ \E vt \in loop :
+     \/ /\ Quiet
+        /\ \E vt \in loop :
           LET r == P!AddVote(pool, vt) IN
           \E tr \in ToVotorSeqs(r.ev) :
             Commit([op |-> "own", vt |-> vt], r.p, votor, chan \o tr, bchan, loop \ {vt}, my,
@@ -97,6 +105,7 @@ Next ==
      \/ /\ bchan # <<>>
         /\ VotorStep([op |-> "vbs", e |-> Head(bchan)], V!OnBlockstore(votor, Head(bchan)), chan, Tail(bchan))
      \/ \E s \in EvSlots, k \in {"timeout", "crashed"} :
+          /\ Quiet
           /\ (k = "crashed" => s = V!VFirstInWindow(s))
           /\ VotorStep([op |-> "timeout", k |-> k, s |-> s], V!OnTimeout(votor, k, s), chan, bchan)
 
